@@ -135,6 +135,13 @@ Step == /\ phase = "call" /\ phase' = "done" /\ e' = e
         /\ out' = Tr(e)
         /\ (Emit => PrintT(ToJson(e)))
 Spec == Init /\ [][Step]_vars
+\* the same universe built in two stages -- the first component, then one more constructor layer around it -- so that TLC's
+\* workers share the enumeration (initial states are computed by one thread; TermsUpTo(2) over the full leaf set has 0.76 M)
+InitStaged == e \in TermsUpTo(Depth - 1) /\ out = e /\ phase = "build"
+Build == /\ phase = "build" /\ phase' = "call" /\ out' = out
+         /\ LET P == TermsUpTo(Depth - 1) a == e IN
+            e' \in {a} \cup {Or(a, b) : b \in P} \cup {S(h, a) : h \in Heads} \cup {T(<<a, b>>) : b \in P} \cup {L(<<a>>)}
+SpecStaged == InitStaged /\ [][Build \/ Step]_vars
 
 InvSem      == phase = "done" => SemPreserved(e, out)
 InvNoBitOr  == phase = "done" => NoBitOrLeft(e, out)
